@@ -38,7 +38,8 @@ type Request struct {
 }
 
 func newRequest(msg message.Message) *Request {
-	return &Request{msg: msg, reply: make(chan message.Message)}
+	// buffered: the response handler must never block on a requester that gave up
+	return &Request{msg: msg, reply: make(chan message.Message, 1)}
 }
 
 func (r *Request) GetResponse(done <-chan struct{}, respDuration time.Duration) (message.Message, bool) {
@@ -164,6 +165,8 @@ func (pConn *PFCPConn) SendPFCPMsg(msg message.Message) {
 
 func (pConn *PFCPConn) sendPFCPRequestMessage(r *Request) (message.Message, bool) {
 	pConn.pendingReqs.Store(r.msg.Sequence(), r)
+	// whichever way the request ends, it is no longer pending afterwards
+	defer pConn.pendingReqs.Delete(r.msg.Sequence())
 
 	pConn.SendPFCPMsg(r.msg)
 	retriesLeft := pConn.upf.maxReqRetries
